@@ -10,12 +10,14 @@ import numpy as np
 
 import common
 import gen
+import rng_script
 from common import Case, Issue, q, ql, il, line
+from rng_script import ScriptedRNG, adversarial
 from thr_common import cells
 
 ID = "C16"
 LEVEL = "proof"
-RULE = ("cases cycle through 10 slots: roc_with_ci with the identity sampler (x2), roc_with_ci with a built-in sampler "
+RULE = ("the first 3200 (quick) / 48000 (thorough) case indices cycle through 10 slots: roc_with_ci with the identity sampler (x2), roc_with_ci with a built-in sampler "
         "(replacement / single_pass / proportion x stratified None / by_label, nb_samples 10-20, np.random.seed) (x3), "
         "pointwise_band_ci, simultaneous_joint_region_ci, fixed_width_band_ci (nb_points None or >= 3, no supplied points), "
         "direct _aggregate_rectangles calls (incl. NaN entries, inverted and degenerate rectangles), direct "
@@ -24,7 +26,12 @@ RULE = ("cases cycle through 10 slots: roc_with_ci with the identity sampler (x2
         "fnr / fpr / thresholds / nb_points (None or supplied; supplied thresholds include every scored value and its float "
         "neighbours so that rates 0, 1/n, (n-1)/n, 1 occur), 8 x_axis names, alpha in {0.01, 0.05, 0.3, 0.9}, bootstrap "
         "methods quantile / bc / bca; non-trivial = distinct input with ties or easy samples or a non-default configuration "
-        "or supplied points or NaN entries")
+        "or supplied points or NaN entries. The following 240 (quick) / 3600 (thorough) indices are the scripted kind 'rwcs': "
+        "roc_with_ci (3 of 4) / pointwise_band_ci under ScriptedRNG (np.random.binomial/poisson/choice patched, requests and "
+        "answers recorded; half of the scripts realistic, half adversarial: all-zero / all-one multiplicities, extreme class "
+        "splits, first / last index), built-in samplers replacement / single_pass / dynamic / proportion x stratified None / "
+        "by_label, nb_samples 3-8, sources of 2-9 scores per class (65% without cross-class ties), easy samples in 20%, the 16 "
+        "combinations of supplied points, 8 x_axis names, 4 alphas, quantile / bc / bca")
 EXPLANATION = ("Theorems in SA/Theorems/C16.lean prove for the model (SA/Model/RocCI.lean) and ALL inputs: the band of "
                "_aggregate_rectangles at x_j is the min / max over rectangle j and the rectangles whose x-interval covers x_j "
                "(C16_aggregate_envelope), ordered if the rectangles are (C16_ordered), inside [0,1] if they are "
@@ -58,7 +65,19 @@ EXPLANATION = ("Theorems in SA/Theorems/C16.lean prove for the model (SA/Model/R
                "radius is the model's bisection result and on the grid, delta is the linear quantile of the radii at level "
                "1 - alpha, the final displacement vectors are +-(delta, delta k), sampled _displace_curve calls are the "
                "clipped translate with reset end points and monotone, the bands are the interpolations of the observed "
-               "displaced curves and equal the model's closed form, and lie in [0, nextafter(1, inf)].")
+               "displaced curves and equal the model's closed form, and lie in [0, nextafter(1, inf)]. Scripted kind: theorems in "
+               "SA/Theorems/C16Script.lean prove for the end-to-end model rocWithCIScript (SA/Model/RocCIScript.lean: _metric(self), "
+               "nb_samples x (bootstrap_sample on the script, _metric(sample)), utils.bootstrap_ci per component, rule of three, "
+               "aggregation) that it IS rocWithCI with boot := the script-driven interval (C16_script_refines / _errors), that the RNG "
+               "is left in the state after exactly nb_samples consecutive bootstrap_sample calls and the request list is the "
+               "concatenation of their requests (C16_script_state / _requests), that on EVERY ok run (in-support answers) of every "
+               "runnable built-in sampler on a source with both classes scored the call returns and the bands have one row per "
+               "threshold, are NaN-free and inside [0,1] for all three methods, ordered for quantile / bc (C16_script_wellformed, "
+               "_quantile, _bc; pointwise_band_ci: C16_script_pointwise_wellformed), that every sample of such a run has a scored "
+               "positive and negative, keeps the flags and is sorted (C16_script_samples), and that on the identity script the bands "
+               "are those of C16_identity_closed_form (C16_script_identity). The correspondence run (driver op rocciscript) runs "
+               "that model on the implementation's thresholds, float rates and recorded RNG answers and compares bands (1e-12), "
+               "request sequence (exact) and the replicate matrix of Scores.bootstrap_metric entry by entry.")
 TRUSTED_BASE = ["Lean 4.33 kernel", "axioms propext/Classical.choice/Quot.sound only",
                 "hand-written model SA/Model/RocCI.lean (+Roc.lean, Threshold.lean, Basic.lean) tied to /repo by this correspondence run",
                 "hand-written model SA/Model/FixedWidth.lean (np.interp's compiled search modelled as a linear scan, valid for "
@@ -67,7 +86,10 @@ TRUSTED_BASE = ["Lean 4.33 kernel", "axioms propext/Classical.choice/Quot.sound 
                 "samples of fixed_width_band_ci (their rates are the recorded arguments of _find_tube_radius), the joint bootstrap interval "
                 "(Scores.bootstrap_ci of the documented metric; C13/C14 cover it)",
                 "np.sort / np.concatenate / np.linspace / np.where / np.min / np.max by documented meaning",
-                "harness and driver parsing; tolerance 1e-9 on interpolated thresholds, 1e-12 on band values, 2^-50 on quotients"]
+                "harness and driver parsing; tolerance 1e-9 on interpolated thresholds, 1e-12 on band values, 2^-50 on quotients",
+                "scripted kind: harness/rng_script.py (ScriptedRNG), the composed model SA/Model/RocCIScript.lean (+Sampling.lean, Rng.lean, "
+                "BootMetric.lean, Bootstrap.lean), oracles: normal ppf / cdf and x**1.5 (recorded scipy calls, two-pass protocol), the float "
+                "rounding of the curve's rates (the implementation's own curve.fnr / curve.fpr, checked against scores.fnr/fpr(thresholds))"]
 ASSUMPTIONS = ["finite float scores of moderate magnitude, both classes non-empty, 1-d array arguments, nb_points >= 1 or None "
                "(roc_with_ci(nb_points=0) raises IndexError on thresholds[[0, -1]]; modelled as an error, not generated)",
                "alpha in (0,1)",
@@ -85,7 +107,13 @@ ASSUMPTIONS = ["finite float scores of moderate magnitude, both classes non-empt
                "ordering of roc_with_ci / pointwise_band_ci bands is not claimed in a run whose bootstrap limits are themselves "
                "unordered (BCa beyond its pole, an assumption of C13); such runs are counted as skipped",
                "the number of extra support points is taken from the implementation's own plain support "
-               "(_find_support_thresholds(..., None, x_axis), property C15)"]
+               "(_find_support_thresholds(..., None, x_axis), property C15)",
+               "scripted kind: an entry of the replicate matrix is 'fragile' when the exact threshold of _metric lies within 1e-9 (relative "
+               "to the score scale) of a score of the class whose rate is counted there (float rounding of the interpolation decides the "
+               "side; needs cross-class ties); fragile entries are compared after replacing them by the fraction c/den nearest to the "
+               "observed replicate, and a band difference that remains is counted as skipped only if the model reports a rectangle end "
+               "point within 1e-9 of a point it may cover (cover), the existing 1-pow near miss (disc) or a BCa pole; smoothing is not "
+               "generated (noise is not modelled)"]
 
 AXES = ["fnr", "fpr", "tnr", "tpr", "far", "frr", "tar", "trr"]
 ALPHAS = [0.01, 0.05, 0.3, 0.9]
@@ -96,8 +124,30 @@ KINDS = ["rwc-id", "rwc", "rwc-id", "rwc", "rwc", "pw", "sjr", "fwb", "aggr", "r
 EPS = Fraction(1, 10**12)
 
 
+N_BASE = {"quick": 3200, "thorough": 48000}   # the 10 slots of KINDS, exactly as before the scripted kind was added
+N_SCRIPT = {"quick": 240, "thorough": 3600}   # then this many cases of the scripted kind "rwcs"
+SCRIPT_SAMPLERS = SAMPLERS + [("dynamic", None), ("dynamic", "by_label")]
+SCRIPT_MODES = ["zeros", "zeros+lo", "zeros+hi", "lo", "hi", "lo1", "hi1", "ones", "first", "last", "zeros+first", "zeros+last",
+                "hi1+lo", "lo1+hi", "hi+last", "lo+first", "ones+first", "ones+last"]
+SCRIPT_TOL = Fraction(1, 10**9)
+
+
 def n_cases(tier):
-    return 3200 if tier == "quick" else 48000
+    t = tier if tier in N_BASE else "quick"
+    return N_BASE[t] + N_SCRIPT[t]
+
+
+def _slot(i, tier):
+    """(kind, j): indices below N_BASE keep the slot they always had, the next N_SCRIPT indices are the scripted kind; beyond
+    that range (the search runs that start at a large index) every 12th index is scripted, the others cycle through KINDS"""
+    t = tier if tier in N_BASE else "quick"
+    if i < N_BASE[t]:
+        return KINDS[i % len(KINDS)], i // len(KINDS)
+    if i < N_BASE[t] + N_SCRIPT[t]:
+        return "rwcs", i - N_BASE[t]
+    if i % 12 == 11:
+        return "rwcs", i // 12
+    return KINDS[i % len(KINDS)], i // len(KINDS)
 
 
 # --------------------------------------------------------------------------------------
@@ -210,9 +260,57 @@ def _gen_rot(rng):
             "nanrow": rng.random() < 0.1}
 
 
+def _scores_small(rng):
+    npos, nneg = rng.randint(2, 6), rng.randint(2, 6)
+    if rng.random() < 0.25:
+        npos, nneg = rng.randint(2, 9), rng.randint(2, 9)
+    style = rng.choice(["generic", "generic", "tiefree", "tiefree", "separated", "dyadic", "shared", "tiefree"])
+    if style == "dyadic":
+        pos = [rng.randint(-8, 12) / 4.0 for _ in range(npos)]
+        neg = [rng.randint(-12, 8) / 4.0 for _ in range(nneg)]
+    elif style == "generic":
+        pos = [rng.gauss(1.0, 1.0) for _ in range(npos)]
+        neg = [rng.gauss(0.0, 1.0) for _ in range(nneg)]
+        if rng.random() < 0.4:  # ties within a class, none across
+            pos[rng.randrange(npos)] = pos[0]
+            neg[rng.randrange(nneg)] = neg[0]
+    elif style == "tiefree":
+        pos, neg = gen.tiefree(rng, npos, nneg, rng.random() < 0.5)
+    elif style == "shared":
+        pool = [rng.randint(-8, 8) / 4.0 for _ in range(rng.randint(2, 5))]
+        pos = [rng.choice(pool) for _ in range(npos)]
+        neg = [rng.choice(pool) for _ in range(nneg)]
+    else:
+        pos = [abs(rng.gauss(0, 1)) + 0.25 for _ in range(npos)]
+        neg = [-abs(rng.gauss(0, 1)) - 0.25 for _ in range(nneg)]
+    if rng.random() < 0.2:
+        ep, en = rng.choice([0, 1, 2, 5]), rng.choice([0, 1, 3, 4])
+    else:
+        ep, en = 0, 0
+    sc, ec = rng.choice(gen.CFGS)
+    return [float(x) for x in pos], [float(x) for x in neg], ep, en, sc, ec
+
+
+def _gen_script(rng, j):
+    pos, neg, ep, en, sc, ec = _scores_small(rng)
+    combo = j % 16
+    sm, st = rng.choice(SCRIPT_SAMPLERS)
+    fn = "pw" if rng.random() < 0.25 else "rwc"
+    return {"kind": "rwcs", "fn": fn, "pos": pos, "neg": neg, "ep": ep, "en": en, "sc": sc, "ec": ec,
+            "fnr": _rates(rng, len(pos), len(pos) + ep)[:3] if combo & 1 else None,
+            "fpr": _rates(rng, len(neg), len(neg) + en)[:3] if combo & 2 else None,
+            "thr": _thresholds(rng, pos, neg)[:6] if combo & 4 else None,
+            "nb": rng.choice([1, 2, 3, 5, 8]) if combo & 8 else None,
+            "xaxis": rng.choice(AXES) if fn == "rwc" else "fnr", "alpha": rng.choice(ALPHAS), "bm": rng.choice(BMS),
+            "sampler": sm, "strat": st, "ratio": rng.choice([0.6, 0.5, 0.3, 0.9]) if sm == "proportion" else None,
+            "nbs": rng.randint(3, 8),
+            "script": {"seed": rng.randrange(10**6), "mode": rng.choice(SCRIPT_MODES) if rng.random() < 0.5 else ""}}
+
+
 def gen_one(rng, i, tier):
-    kind = KINDS[i % len(KINDS)]
-    j = i // len(KINDS)
+    kind, j = _slot(i, tier)
+    if kind == "rwcs":
+        return _gen_script(rng, j)
     if kind == "aggr":
         return _gen_aggr(rng)
     if kind == "rot":
@@ -1059,6 +1157,197 @@ def _build_exp(inp):
     return case
 
 
+# --------------------------------------------------------------------------------------
+# roc_with_ci / pointwise_band_ci end to end on the scripted RNG (driver op rocciscript)
+# --------------------------------------------------------------------------------------
+def _erat_list(xs):
+    return "[" + ",".join(q(x) for x in xs if not (isinstance(x, float) and math.isnan(x))) + "]"
+
+
+def _tofloat(fr_):
+    try:
+        return float(fr_)
+    except OverflowError:
+        return math.inf if fr_ > 0 else -math.inf
+
+
+def _build_script(inp):
+    import scipy.stats
+    from score_analysis import BootstrapConfig, Scores, roc_curve
+    from score_analysis.experimental import roc_ci
+
+    pw = inp["fn"] == "pw"
+    fname = "pointwise_band_ci" if pw else "roc_with_ci"
+    s = Scores(inp["pos"], inp["neg"], nb_easy_pos=inp["ep"], nb_easy_neg=inp["en"], score_class=inp["sc"],
+               equal_class=inp["ec"])
+    cfg = BootstrapConfig(nb_samples=inp["nbs"], bootstrap_method=inp["bm"], sampling_method=inp["sampler"],
+                          stratified_sampling=inp["strat"], ratio=inp["ratio"])
+    sc_ = inp["script"]
+    xaxis, alpha, nb, nbs, bm = inp["xaxis"], inp["alpha"], inp["nb"], inp["nbs"], inp["bm"]
+    ax = "" if pw else f", x_axis={xaxis!r}"
+    desc = (f"ScriptedRNG(seed={sc_['seed']}, policy={sc_['mode']!r}): {fname}(Scores(pos={inp['pos']}, neg={inp['neg']}, "
+            f"nb_easy_pos={inp['ep']}, nb_easy_neg={inp['en']}, score_class={inp['sc']!r}, equal_class={inp['ec']!r}), fnr={inp['fnr']}, "
+            f"fpr={inp['fpr']}, thresholds={inp['thr']}, nb_points={nb}{ax}, alpha={alpha}, config=BootstrapConfig(nb_samples={nbs}, "
+            f"bootstrap_method={bm!r}, sampling_method={inp['sampler']!r}, stratified_sampling={inp['strat']!r}"
+            f"{'' if inp['ratio'] is None else ', ratio=' + repr(inp['ratio'])}))")
+    sig = fname + "/scripted"
+    tags = tuple(_tags(inp, fname)) + ("scripted", "script=" + ("adversarial" if sc_["mode"] else "realistic"))
+    pre = []
+    kw = dict(fnr=_arr(inp["fnr"]), fpr=_arr(inp["fpr"]), thresholds=_arr(inp["thr"]), nb_points=nb, alpha=alpha, config=cfg)
+    if not pw:
+        kw["x_axis"] = xaxis
+    gstate = np.random.get_state()[1].copy()
+    with ScriptedRNG(seed=sc_["seed"], policy=adversarial(sc_["mode"]) if sc_["mode"] else None) as rr, \
+            common.Recorder(scipy.stats.norm, "ppf") as rp, common.Recorder(scipy.stats.norm, "cdf") as rc, \
+            _CopyRecorder(Scores, "bootstrap_metric") as rm, _CopyRecorder(Scores, "bootstrap_ci") as rb:
+        res = common.call(roc_ci.pointwise_band_ci if pw else roc_curve.roc_with_ci, s, **kw)
+    if not (np.random.get_state()[1] == gstate).all():
+        pre.append(Issue("ERR", "script", f"{desc}: the global RandomState was used (a primitive that is not scripted)", "script"))
+    trace = rr.trace
+    bad = [e for e in trace if e["raised"] is None and not rng_script.in_range(e, e["resp"])]
+    if bad:
+        pre.append(Issue("ERR", "script", f"harness produced an out-of-support answer: {bad[0]}", "script"))
+    if res[0] == "exc":
+        pre.append(Issue("PROPFAIL", "raises", f"{desc} raised {res[1]}: {res[2]} (requests so far: {rng_script.brief(trace)[:300]})",
+                         sig + "/raises"))
+        return Case(ID, inp, [], lambda outs: [], tags + ("raised",), 0, pre)
+    c = res[1]
+    chk = _curve_checks(c, s, desc, sig, pre)
+    if chk is None:
+        return Case(ID, inp, [], lambda outs: [], tags, 0, pre)
+    othr, ofnr, ofpr, fb, gb, ocm = chk
+    n = len(othr)
+    npos, nneg = len(inp["pos"]), len(inp["neg"])
+    powpos, powneg = math.pow(alpha, 1 / npos), math.pow(alpha, 1 / nneg)
+    farr, garr = np.array(ofnr), np.array(ofpr)
+    # the replicate matrix the implementation computed, and the point estimate of the documented metric
+    hasrep, oest, orep = 0, [], []
+    est = common.call(_metric_of(farr, garr), s)
+    if len(rm.calls) == 1 and est[0] == "ok":
+        m_ = np.asarray(rm.calls[0][2], dtype=float)
+        e_ = np.asarray(est[1], dtype=float)
+        if m_.shape == (nbs, 2, n) and e_.shape == (2, n) and not np.isinf(m_).any() and not np.isinf(e_).any():
+            hasrep, oest, orep = 1, _flat(e_), _flat(m_)
+    joint_ordered = True
+    if len(rb.calls) == 1:
+        jt = np.asarray(rb.calls[0][2], dtype=float)
+        if jt.shape == (2, n, 2):
+            joint_ordered = bool((jt[..., 0] <= jt[..., 1]).all())
+    # oracle tables from the recorded scipy calls
+    tables = {"ppf_in": [], "ppf_out": [], "cdf_in": [], "cdf_out": [], "p15_in": [], "p15_out": []}
+    for calls, kind_ in ((rp.calls, "ppf"), (rc.calls, "cdf")):
+        for a_, k_, r_ in calls:
+            if not a_:
+                continue
+            xi, xo = np.asarray(a_[0], dtype=float).reshape(-1), np.asarray(r_, dtype=float).reshape(-1)
+            if len(xi) != len(xo):
+                continue
+            for u_, v_ in zip(xi, xo):
+                if not math.isnan(u_) and not math.isnan(v_) and float(u_) not in tables[kind_ + "_in"]:
+                    tables[kind_ + "_in"].append(float(u_)); tables[kind_ + "_out"].append(float(v_))
+    ratio = inp["ratio"]
+    scale = max([abs(x) for x in inp["pos"] + inp["neg"]] + [1.0])
+    conf = dict(method=inp["sampler"], strat=int(inp["strat"] == "by_label"), smooth=0,
+                ratio="none" if ratio is None else q(float(ratio)),
+                prods="[]" if ratio is None else ql([ratio * npos, ratio * nneg, ratio * inp["ep"], ratio * inp["en"]]))
+    script_kw = rng_script.encode_script(trace)
+    script_kw.pop("oh")
+    req_kw = rng_script.encode_requests(trace, "q")
+
+    def mkline():
+        return line("rocciscript", **_scores_kw(inp), fn="pw" if pw else "rwc", fnr=_opt(inp["fnr"]), fpr=_opt(inp["fpr"]),
+                    thr=_opt(inp["thr"]), nb="none" if nb is None else nb, xaxis=xaxis, alpha=q(alpha), bm=bm, **conf, nbs=nbs,
+                    **script_kw, **req_kw, **{k_: _erat_list(v_) for k_, v_ in tables.items()},
+                    powpos=q(powpos), pownegv=q(powneg), othr=ql(othr), ofnr=ql(ofnr), ofpr=ql(ofpr),
+                    **_band_kw("fblo", "fbhi", fb), **_band_kw("gblo", "gbhi", gb), hasrep=hasrep, oest=ql(oest), orep=ql(orep),
+                    eps=q(EPS), tol=q(SCRIPT_TOL * Fraction(scale)))
+
+    inp = dict(inp)
+    inp["_evals"] = 2 * n * (nbs + 2) + len(trace)
+    case = Case(ID, inp, [mkline()], None, tags, 0, pre)
+
+    def judge(outs):
+        o = outs[0]
+        iss = []
+        misses = common.plist(o["miss"])
+        rounds = 0
+        while misses and rounds < 5:
+            rounds += 1
+            for m_ in misses:
+                kind_, arg = m_.split(":", 1)
+                x = math.inf if arg == "inf" else (-math.inf if arg == "-inf" else _tofloat(Fraction(arg)))
+                if kind_ == "p15":
+                    tables["p15_in"].append(x); tables["p15_out"].append(float(np.float64(x) ** 1.5))
+                else:  # the real scipy functions ARE the oracle
+                    tables[kind_ + "_in"].append(x); tables[kind_ + "_out"].append(float(getattr(scipy.stats.norm, kind_)(x)))
+            o = common.run_driver([mkline()])[0]
+            if "ERR" in o:
+                return [Issue("ERR", "driver", o["ERR"], "driver-error")]
+            misses = common.plist(o["miss"])
+        if misses:
+            return [Issue("ORACLE-MISS", "oracle", f"{desc}: model query not answered: {misses[:4]}", sig + "/oracle-miss")]
+        # ---- the C16 clauses on the implementation's own output
+        wf = _wellformed(o, desc, sig, f"bands fnr_ci={fb.tolist()} fpr_ci={gb.tolist()}", not pw)
+        if not joint_ordered and any(i.clause == "ordered" for i in wf):
+            case.skipped += 1  # the bootstrap limits themselves are unordered (BCa beyond its pole, see C13)
+            wf = [i for i in wf if i.clause != "ordered"]
+        iss += wf
+        # ---- the request sequence: exactly nb_samples consecutive bootstrap_sample calls, as the model issues them
+        if o["tracediff"] != "-1":
+            mt = rng_script.decode_requests(o, "m") if "mk" in o else []
+            iss.append(Issue("DISAGREE", "requests", f"{desc}: RNG request #{o['tracediff']} differs; implementation ({len(trace)} requests): "
+                             f"{rng_script.brief(trace)[:400]}; model ({o['nreq']} requests): "
+                             f"{[(e['prim'], e['n'], e['size'], e['replace'], float(e['p'])) for e in mt][:12]}", sig + "/requests"))
+            return iss
+        if o["spec.requests"] != "1":
+            iss.append(Issue("DISAGREE", "requests", f"{desc}: the model's run on the recorded answers is not ok / leaves answers "
+                             f"unread (ok={o['mok']}, unread={o['left']}, model result {o['mres']})", sig + "/requests-ok"))
+            return iss
+        if o["mres"] != "ok":
+            iss.append(Issue("DISAGREE", "raises", f"{desc} returned but the model raises {o['mres']}", sig + "/model-raises"))
+            return iss
+        # ---- the closed form on the implementation's own replicates: bands = aggregate(rule of three(bootstrap interval of the
+        # observed replicate matrix at the requested alpha / method)) -- a clause of C16 itself
+        pole = common.pfrac(o["pole"])
+        near_pole = pole is not None and pole < Fraction(1, 10**6)
+        if hasrep and o["spec.closedform"] != "1":
+            if near_pole or o["coverobs"] == "1" or o["disc"] == "1":
+                case.skipped += 1
+            else:
+                what = "pointwise" if pw else "envelope"
+                iss.append(Issue("PROPFAIL", what, f"{desc}: bands fnr_ci={fb.tolist()} fpr_ci={gb.tolist()} are not "
+                                 f"{'the' if pw else 'the envelope of the'} pointwise rectangles = {bm} bootstrap intervals (alpha={alpha}) "
+                                 f"of the {nbs} replicates that Scores.bootstrap_metric returned for the band metric, with the "
+                                 f"rule-of-three rows (n_pos={npos}, n_neg={nneg}); rates fnr={ofnr} fpr={ofpr}; replicates {orep[:16]}...: "
+                                 f"expected fnr_ci lower={o.get('cflo')} upper={o.get('cfhi')}, fpr_ci lower={o.get('cglo')} "
+                                 f"upper={o.get('cghi')}", f"{sig}/{what}"))
+        # ---- replicates, entry by entry (fragile entries after patching)
+        if hasrep and o["spec.replicates"] != "1":
+            iss.append(Issue("DISAGREE", "replicates", f"{desc}: the replicate matrix of Scores.bootstrap_metric (or the point estimate) "
+                             f"differs from _metric on the model's samples in an entry that is not within 1e-9 of a jump "
+                             f"(fragile entries: {o['nfrag']}); observed estimate {oest[:8]} replicates {orep[:12]}",
+                             sig + "/replicates"))
+        # ---- bands
+        nfrag = int(o["nfrag"])
+        if o["spec.bands"] == "1":
+            pass
+        elif nfrag > 0 and hasrep and o["spec.bands_patched"] == "1":
+            pass  # equal once the fragile replicate entries take the side the floats took
+        elif near_pole:
+            case.skipped += 1
+        elif o["cover"] == "1" or o["disc"] == "1" or (nfrag > 0 and not hasrep):
+            case.skipped += 1
+        else:
+            which = ("p", "patched ") if (nfrag > 0 and hasrep) else ("m", "")
+            iss.append(Issue("DISAGREE", "bands", f"{desc}: bands fnr_ci={fb.tolist()} fpr_ci={gb.tolist()}; the {which[1]}model on the "
+                             f"recorded RNG answers gives fnr_ci lower={o.get(which[0] + 'flo')} upper={o.get(which[0] + 'fhi')}, fpr_ci "
+                             f"lower={o.get(which[0] + 'glo')} upper={o.get(which[0] + 'ghi')} (fragile entries: {nfrag})", sig + "/bands"))
+        return iss
+
+    case.judge = judge
+    return case
+
+
 def build(inp) -> Case:
     inp = dict(inp)
     kind = inp["kind"]
@@ -1071,6 +1360,8 @@ def build(inp) -> Case:
             inp[k] = [float(common.unjson_num(x)) for x in inp[k]]
     if kind == "rwc":
         return _build_rwc(inp)
+    if kind == "rwcs":
+        return _build_script(inp)
     return _build_exp(inp)
 
 
